@@ -32,6 +32,9 @@ TRUSTED = [
     "bitwise operators on negative ints: the model's own two's-complement definitions (bitAnd/bitOr/bitXor over Nat operations), tied to CPython and g++ by S_py / S_c",
     "abs/min/max: the model evaluates the chosen operand once, the Arduino macros twice (expressions of the fragment are pure)",
     "C int modelled as an unbounded integer with a 32-bit range check (`overflow`): 16-bit AVR int is a side condition the model does not check",
+    "W14 list comprehension over range(a, b, s): `Fw/ListRange.lean` mirrors the helper template's counting walk and bound-checked fill walk (theorems for all a, b and s ≠ 0: "
+    "the block holds exactly Python's range, no store outside it); C int unbounded there too (`exit_value_up/down`: no value beyond stop + step is computed), the lambda body a pure "
+    "Int → Int (tied with affine bodies m*t + c, element type int); step 0: helper returns the empty list where CPython raises ValueError (counted, no oracle verdict)",
     "harness/langgen.py printers (Python text and S-expression of one tree), harness/pyoracle.py (CPython + host modules), mock core + host g++",
 ]
 
@@ -181,6 +184,136 @@ def comp_scripts(rng, n):
     return out
 
 
+RANGE_TIE = "list-from-range (Fw.fwRange vs compiled helper)"
+
+
+def range_body(m, c):
+    return "t" if (m, c) == (1, 0) else f"t * {m} + {c}"
+
+
+def range_script(cases):
+    """one comprehension per (a, b, s, m, c): the length and every element are printed, list after list"""
+    lines = list(langgen.HEADER)
+    for j, (a, b, s, m, c) in enumerate(cases):
+        lines.append(f"r{j} = [{range_body(m, c)} for t in range({a}, {b}, {s})]")
+    for j in range(len(cases)):
+        lines += [f"mon.write(len(r{j}))", f"for i in range(len(r{j})):", f"    mon.write(r{j}[i])"]
+    return "\n".join(lines) + "\n"
+
+
+def range_cases(ctx):
+    """every (a, b) of a small grid with every step in -5..5 except 0 (body `t`), plus random larger ranges with an affine body"""
+    rng = ctx.rng
+    lo, hi = (-3, 5) if ctx.tier != "thorough" else (-7, 9)
+    cases = [(a, b, s, 1, 0) for a in range(lo, hi + 1) for b in range(lo, hi + 1) for s in (-5, -4, -3, -2, -1, 1, 2, 3, 4, 5)]
+    cases += [(9, 0, -2, 1, 0), (7, 6, 2, 1, 0), (255, 0, -10, 1, 0), (0, 255, 17, 2, 1), (1000, -1000, -77, -1, 3), (-32000, 32000, 4001, 1, 0), (32000, -32000, -4001, 1, 0)]
+    for _ in range(ctx.n(60, 1500)):
+        s = rng.choice([1, 2, 3, 7, 10, 16, 25, 99, 100, 256, 1000]) * rng.choice([1, -1]) + rng.choice([0, 0, 1, -1])
+        if s == 0:
+            s = rng.choice([-6, 6])
+        a = rng.randint(-20000, 20000)
+        k = rng.randint(0, 24)
+        # stop: exactly on the grid of the step, just before / after it, or on the wrong side of start
+        b = a + k * s + rng.choice([0, 0, 1, -1, s // 2, -(s // 2), rng.randint(-abs(s), abs(s))])
+        if rng.random() < 0.15:
+            b = a - rng.randint(0, 2 * abs(s)) * (1 if s > 0 else -1)
+        cases.append((a, b, s, rng.choice([1, 1, 2, -1, -3, 5]), rng.choice([0, 0, 1, -7, 100])))
+    return cases
+
+
+def range_tie(ctx):
+    """W14: the helper model against the compiled `__redu_list_from_range` (tie) and CPython's range against the firmware (oracle)"""
+    per = 14
+    cases = range_cases(ctx)
+    want_model = ctx.lean.drive([f"range|{a}|{b}|{s}|{m}|{c}" for a, b, s, m, c in cases])
+    py_model = ctx.lean.drive([f"pyrange|{a}|{b}|{s}" for a, b, s, m, c in cases])
+
+    def model_events(ans):
+        if not ans.startswith("ok "):
+            return None
+        f = dict(x.split("=", 1) for x in ans.split(" ")[1:])
+        vs = [] if f["v"] == "-" else f["v"].split(",")
+        return [f["n"]] + vs
+
+    for (a, b, s, m, c), ans in zip(cases, py_model):
+        r = list(range(a, b, s))
+        want = f"ok n={len(r)} v=" + (",".join(map(str, r)) if r else "-")
+        if ans != want:
+            ctx.tie_diff("pyRange vs CPython list(range(a, b, s))", {"range": [a, b, s]}, ans[:200], want[:200])
+    groups = [cases[i:i + per] for i in range(0, len(cases), per)]
+    srcs = [range_script(g) for g in groups]
+
+    def run_all(srcs):
+        outs = [cxx.transpile(x) for x in srcs]
+        it = iter(cxx.run_many(ctx, [(cpp, 1, "") for cpp, e in outs if cpp is not None]))
+        return [(cpp, exc, next(it) if cpp is not None else None) for cpp, exc in outs]
+
+    def fw_of(res):
+        return [v for k, v in pyoracle.fw_events(res.trace) if k == "w"]
+
+    def check_one(case, ans, res_events, src):
+        """events of ONE comprehension against model and CPython; returns True when both agree"""
+        a, b, s, m, c = case
+        py = [m * t + c for t in range(a, b, s)]
+        py_ev = [str(len(py))] + [str(v) for v in py]
+        mod = model_events(ans)
+        good = True
+        if mod is None or mod != res_events:
+            ctx.tie_diff(RANGE_TIE, {"script": src, "range": [a, b, s], "body": range_body(m, c)}, ans[:300], ("n=" + ",".join(res_events))[:300])
+            good = False
+        if py_ev != res_events:
+            ctx.fail("core:comprehension-range", f"[{range_body(m, c)} for t in range({a}, {b}, {s})]: CPython gives {py_ev[0]} element(s) {py_ev[1:9]}, the firmware prints "
+                     f"length {res_events[:1]} elements {res_events[1:9]}", {"script": src, "passes": 1, "python": py_ev[:40], "firmware": res_events[:40]})
+            good = False
+        return good
+
+    offs = 0
+    for g, src, (cpp, exc, res) in zip(groups, srcs, run_all(srcs)):
+        answers = want_model[offs:offs + len(g)]
+        offs += len(g)
+        for case in g:
+            a, b, s, m, c = case
+            n = len(range(a, b, s))
+            ctx.case(f"range:{case}", nontrivial=True)
+            ctx.count("range-tie:" + ("empty" if n == 0 else ("descending" if s < 0 else "ascending") + ("-exact" if (b - a) % s == 0 else "-ragged")))
+        ctx.cov["traces_validated_against_impl"] += 1
+        expected = []
+        for ans in answers:
+            expected += model_events(ans) or ["?"]
+        got = fw_of(res) if (res is not None and not res.compile_error and res.ok) else None
+        if got == expected and all(model_events(ans) == [str(len(range(a, b, s)))] + [str(m * t + c) for t in range(a, b, s)] for (a, b, s, m, c), ans in zip(g, answers)):
+            continue
+        # something in this group differs (or the sketch was refused / died): every comprehension of the group on its own
+        singles = [range_script([case]) for case in g]
+        for case, ans, one, (cpp1, exc1, res1) in zip(g, answers, singles, run_all(singles)):
+            if cpp1 is None:
+                ctx.tie_diff(RANGE_TIE, {"script": one}, ans[:200], "rejected: " + repr(exc1)[:200])
+                ctx.fail("core:comprehension-range", f"a comprehension over range{case[:3]} is rejected: {exc1!r}", {"script": one})
+            elif res1.compile_error or not res1.ok:
+                ctx.tie_diff(RANGE_TIE, {"script": one}, ans[:200], "does not compile/run: " + (res1.compile_error or res1.stderr)[:200])
+                ctx.fail("core:compile", f"accepted script does not compile/run: {(res1.compile_error or res1.stderr)[:300]}", {"script": one})
+            else:
+                check_one(case, ans, fw_of(res1), one)
+    # step 0: CPython raises ValueError (the script is not a valid program: no oracle verdict); the transpiler accepts a literal 0 and a
+    # run-time 0 alike and the helper returns the empty list — the model says the same (`step_zero`)
+    for label, body in [("literal", "xs = [t for t in range(3, 9, 0)]\nmon.write(len(xs))\nmon.write(77)\n"), ("run-time", "z = 0\nxs = [t for t in range(3, 9, z)]\nmon.write(len(xs))\nmon.write(77)\n")]:
+        src = "\n".join(langgen.HEADER) + "\n" + body
+        (cpp, exc, res), = run_all([src])
+        ans, pans = ctx.lean.drive(["range|3|9|0", "pyrange|3|9|0"])
+        _, err = pyoracle.run_script(src, 1)
+        ctx.case("range-step-zero:" + label, nontrivial=True)
+        if pans != "raises ValueError" or not isinstance(err, ValueError):
+            ctx.tie_diff("pyRangeE vs CPython (step 0 raises ValueError)", {"script": src}, pans, repr(err))
+        if cpp is None:
+            ctx.count(f"range-step-zero-{label}: rejected by the transpiler")
+        elif res.compile_error or not res.ok:
+            ctx.tie_diff(RANGE_TIE, {"script": src}, ans, "does not compile/run: " + (res.compile_error or res.stderr)[:200])
+        else:
+            ctx.count(f"range-step-zero-{label}: accepted, firmware goes on with an empty list (CPython raises ValueError)")
+            if (model_events(ans) or []) + ["77"] != fw_of(res):
+                ctx.tie_diff(RANGE_TIE, {"script": src}, ans, fw_of(res))
+
+
 SIDE_EFFECT_TUPLES = [
     # right-hand sides of a tuple assignment are evaluated left to right, each exactly once, before any target is bound
     ("tuple-rhs-order-2", "def sample(ch):\n    mon.write(ch)\n    return ch * 10\nk = 1\nlow, high = sample(k), sample(k + 4)\nmon.write(low)\nmon.write(high)\n"),
@@ -233,7 +366,7 @@ def e_compare(ctx, key, src, passes, res, in_domain):
 
 
 def run(ctx: Ctx) -> int:
-    ctx.prove(["Reduino.Props.C01", "Reduino.GenOb.Ops"])
+    ctx.prove(["Reduino.Props.C01", "Reduino.Props.C01Range", "Reduino.GenOb.Ops"])
     common.fresh_import()
     rng = ctx.rng
     progs = []
@@ -378,6 +511,8 @@ def run(ctx: Ctx) -> int:
             ctx.count("extra-rejected:" + key)
             continue
         e_compare(ctx, key, src, 3, res, inside)
+    # ---- W14: the list-from-range helper
+    range_tie(ctx)
     ctx.cov["rule"] = ("type-directed random programs of the core fragment (depth <= 3, bounded while loops, for-range, break, nested if/elif/else, int and bool "
                        "names all first assigned at top level; expressions over + - * & | ^ // % abs min max, divisors mostly positive; tuple assignments (swaps, rotations, "
                        "Fibonacci-style updates, mixed int/bool targets) in prologue, nested blocks and main loop, plus pinned counter-threading programs), N in {0,1,3} passes; "
